@@ -802,6 +802,20 @@ def gen_gate_skel():
 KERNELS.append((gen_cos_skel, "CosSkel.v"))
 KERNELS.append((gen_gate_skel, "GateSkel.v"))
 
+import loop2coq      # noqa: E402
+
+
+def gen_loop_skel():
+    """the four worker loops and their producer sites (protocol IR of Model/LoopIR.v), see tools/loop2coq.py"""
+    try:
+        loop2coq.generate()
+    except loop2coq.Unsupported as e:
+        raise Unsupported(str(e))
+
+
+KERNELS.append((gen_loop_skel, "LoopSkel.v"))
+
+
 
 def main():
     """Each kernel file is generated on its own.  A source shape the translator does not recognise fails CLOSED for
